@@ -29,7 +29,7 @@ def canonical(seq):
     return first in (None, "A")
 
 
-def build_vcf(path, pattern, file_index, ploidy=2, chroms=("chr1",)):
+def build_vcf(path, pattern, file_index, ploidy=2, chroms=("chr1",), multi_idx=()):
     """pattern: per chromosome list of kinds.  diploid kinds: 'u' | 'h' (hom) | '<set><a0><a1>';
     polyploid kinds: tuple(set, alleles tuple) or ('u', alleles)"""
     seq = synth.make_reference(5, 400)
@@ -38,6 +38,8 @@ def build_vcf(path, pattern, file_index, ploidy=2, chroms=("chr1",)):
         for i, k in enumerate(kinds):
             pos = 50 + 30 * i
             ref, alt = seq[pos], [synth.other_base(seq[pos])]
+            if i in multi_idx:
+                alt.append(synth.other_base(seq[pos], 2))
             if isinstance(k, tuple):
                 s, alleles = k
                 if s == "u":
@@ -108,8 +110,9 @@ def expected_pair(p0, p1):
     per_block = []
     bed = []
     for b in blocks:
-        h0 = [int(p0[i][1]) for i in b]
-        h1 = [int(p1[i][1]) for i in b]
+        # haplotype 0 as a 0/1 string: 0 where it carries the smaller allele of the (heterozygous) genotype
+        h0 = [int(int(p0[i][1]) > int(p0[i][2])) for i in b]
+        h1 = [int(int(p1[i][1]) > int(p1[i][2])) for i in b]
         sw = ham(senc(h0), senc(h1))
         s, f = switch_flip(h0, h1)
         hm = min(ham(h0, h1), len(b) - ham(h0, h1))
@@ -177,12 +180,13 @@ def judge_pair(inst):
     p0, p1 = inst["p"]
     d = _dir()
     paths = [os.path.join(d, "f0.vcf"), os.path.join(d, "f1.vcf")]
-    build_vcf(paths[0], [p0], 0)
-    build_vcf(paths[1], [p1], 1)
+    multi = tuple(i for i in range(len(p0)) if any(len(k) == 3 and "2" in k[1:] for k in (p0[i], p1[i])))
+    build_vcf(paths[0], [p0], 0, multi_idx=multi)
+    build_vcf(paths[1], [p1], 1, multi_idx=multi)
     viols = []
 
     def V(clause, detail):
-        return {"clause": clause, "signature": "c11:" + clause, "detail": detail + f" (files {p0} vs {p1})", "instance": inst}
+        return {"clause": clause, "signature": "c11:" + clause + (":multi-allelic" if multi else ""), "detail": detail + f" (files {p0} vs {p1})", "instance": inst}
 
     try:
         res = run_tool(paths)
@@ -619,6 +623,16 @@ def space(tier):
     for n in (7,):
         for p1 in one(n):
             yield {"kind": "pair", "p": [list(one(n)[0]), list(p1)]}
+    # diploid genotypes over the alleles of a two-ALT record (1|2, 2|1, 0|2, 2|0) inside a block
+    for n in (3, 4):
+        for mpos, (lo, hi) in itertools.product(range(n), (("1", "2"), ("0", "2"))):
+            def pat(bits):
+                return [("A" + (lo + hi if not bit else hi + lo)) if i == mpos else ("A01" if not bit else "A10") for i, bit in enumerate(bits)]
+            for b0 in itertools.product((0, 1), repeat=n):
+                if b0[0]:
+                    continue
+                for b1 in itertools.product((0, 1), repeat=n):
+                    yield {"kind": "pair", "p": [pat(b0), pat(b1)]}
     # label invariance, explicitly
     inv = [s for s in itertools.product(KINDS[1:], repeat=3) if canonical(s)]
     for p0 in inv:
